@@ -82,6 +82,21 @@ Theorem C37_good_moves_the_entry_to_tried_and_loses_nothing_else :
 Proof. intros tb nb bp r v n nc ao HR s k time s'. exact (real_good_effect tb nb bp r v n nc ao HR s k time s'). Qed.
 Print Assumptions C37_good_moves_the_entry_to_tried_and_loses_nothing_else.
 
+(* Select: whenever Select_ does not return early (its counters say an eligible entry exists), the table it is going to search at random
+   (side = Some true: tried, Some false: new, None: either, by coin) really holds an entry of a requested network - so its search loop
+   ends with probability 1 and what it returns is such an entry (the correspondence judges the implementation's answers by this). *)
+Theorem C37_select_searches_only_when_an_eligible_entry_exists :
+  forall tried_bucket new_bucket bucket_pos routable valid network netclass addr_of,
+  hash_ranges tried_bucket new_bucket bucket_pos ->
+  forall s new_only nets side, reachable tried_bucket new_bucket bucket_pos routable valid network netclass addr_of s ->
+    select_plan s new_only nets = Some side ->
+    exists id a, zfind id (s_info s) = Some a /\
+      (nets = [] \/ In (network (a_key a)) nets) /\ (new_only = true -> a_tried a = false) /\
+      match side with Some true => a_tried a = true | Some false => a_tried a = false | None => True end /\
+      (if a_tried a then sfind (tslot tried_bucket bucket_pos (a_key a)) (s_tried s) = Some id else exists sl, sfind sl (s_new s) = Some id).
+Proof. exact real_select_sound. Qed.
+Print Assumptions C37_select_searches_only_when_an_eligible_entry_exists.
+
 (* Non-vacuity: with toy hash functions under which all addresses collide in one tried slot, a run that adds two addresses, makes
    both Good (the second one becomes a pending collision) and resolves the collision after the test window is reachable, and ends
    with one tried and one new address. *)
